@@ -310,8 +310,10 @@ Proof.
   - destruct (slice_indices n a b c) eqn:E; [|discriminate]. inversion H; subst.
     apply slice_indices_spec in E. tauto.
   - destruct (norm_indices n l) eqn:E; [|discriminate]. inversion H; subst. eapply norm_indices_lt; eauto.
-  - destruct (Nat.eqb (length m) n) eqn:E; [|discriminate]. inversion H; subst. apply Nat.eqb_eq in E. subst.
-    apply (mask_positions_lt m 0).
+  - destruct (Nat.eqb (length m) n || Nat.eqb (length m) 0) eqn:E; [|discriminate]. inversion H; subst.
+    apply orb_true_iff in E. destruct E as [E|E]; apply Nat.eqb_eq in E.
+    + subst. apply (mask_positions_lt m 0).
+    + destruct m; [constructor|discriminate].
 Qed.
 
 (* a key that numpy serves with a view (or a single row) selects pairwise distinct positions *)
@@ -323,5 +325,5 @@ Proof.
   - destruct (slice_indices n a b c) eqn:E; [|discriminate]. inversion H; subst.
     apply slice_indices_spec in E. tauto.
   - destruct (norm_indices n l); [|discriminate]. inversion H; subst. contradiction.
-  - destruct (Nat.eqb (length m) n); [|discriminate]. inversion H; subst. contradiction.
+  - destruct (Nat.eqb (length m) n || Nat.eqb (length m) 0); [|discriminate]. inversion H; subst. contradiction.
 Qed.
